@@ -8,7 +8,9 @@ use http_body::Body;
 use std::future::Future;
 use std::pin::Pin;
 use std::sync::Arc;
-use std::task::Poll;
+use std::task::{Context, Poll};
+use bytes::Bytes;
+use http_body::Frame;
 use tokio_stream::Stream;
 use tonic::codec::{Decoder, EncodeBody, Encoder, Streaming};
 use tonic::Status;
@@ -256,6 +258,8 @@ where
     let (mut body, bstats) = ScriptBody::new(steps);
     body.eager_end = eager_end;
     body.continue_after_err = unfused;
+    // a transport may hand its data over as a non-contiguous buffer: same bytes, several segments
+    let body = SegBody { inner: body, on: SEGMENTED.with(|c| c.get()) };
     let mut st: Streaming<D::Item> = match dir {
         Dir::Request => Streaming::new_request(decoder, body, enc.tonic(), limit),
         Dir::Response(code) => Streaming::new_response(
@@ -369,4 +373,84 @@ where
         }
     }
     Err("body never ended".into())
+}
+
+
+// ------------------------------------------------------------------ non-contiguous body data
+
+thread_local! {
+    /// When set, `decode_run*` delivers every DATA frame as a buffer of up to three segments.
+    pub static SEGMENTED: std::cell::Cell<bool> = const { std::cell::Cell::new(false) };
+}
+
+/// Run `f` with segmented body data switched on or off.
+pub fn with_segmented<R>(on: bool, f: impl FnOnce() -> R) -> R {
+    let prev = SEGMENTED.with(|c| c.replace(on));
+    let r = f();
+    SEGMENTED.with(|c| c.set(prev));
+    r
+}
+
+/// A `Buf` made of several `Bytes` segments (what a rope or a chained buffer looks like).
+pub struct SegBuf {
+    segs: std::collections::VecDeque<Bytes>,
+}
+impl bytes::Buf for SegBuf {
+    fn remaining(&self) -> usize {
+        self.segs.iter().map(|s| s.len()).sum()
+    }
+    fn chunk(&self) -> &[u8] {
+        self.segs.iter().find(|s| !s.is_empty()).map(|s| &s[..]).unwrap_or(&[])
+    }
+    fn advance(&mut self, mut cnt: usize) {
+        while cnt > 0 {
+            let Some(front) = self.segs.front_mut() else { panic!("verif-harness-bug: advance past the end of a SegBuf") };
+            if front.len() <= cnt {
+                cnt -= front.len();
+                self.segs.pop_front();
+            } else {
+                bytes::Buf::advance(front, cnt);
+                cnt = 0;
+            }
+        }
+        while matches!(self.segs.front(), Some(s) if s.is_empty()) {
+            self.segs.pop_front();
+        }
+    }
+}
+
+pub struct SegBody<B> {
+    inner: B,
+    on: bool,
+}
+impl<B> http_body::Body for SegBody<B>
+where
+    B: http_body::Body<Data = Bytes> + Unpin,
+{
+    type Data = SegBuf;
+    type Error = B::Error;
+    fn poll_frame(mut self: Pin<&mut Self>, cx: &mut Context<'_>) -> Poll<Option<Result<Frame<SegBuf>, B::Error>>> {
+        let on = self.on;
+        match Pin::new(&mut self.inner).poll_frame(cx) {
+            Poll::Pending => Poll::Pending,
+            Poll::Ready(None) => Poll::Ready(None),
+            Poll::Ready(Some(Err(e))) => Poll::Ready(Some(Err(e))),
+            Poll::Ready(Some(Ok(f))) => Poll::Ready(Some(Ok(f.map_data(|d| {
+                let mut segs = std::collections::VecDeque::new();
+                if on && d.len() >= 2 {
+                    let a = d.len() / 3;
+                    let b = (2 * d.len()) / 3;
+                    segs.push_back(d.slice(..a));
+                    segs.push_back(d.slice(a..b));
+                    segs.push_back(d.slice(b..));
+                } else {
+                    segs.push_back(d);
+                }
+                SegBuf { segs }
+            })))),
+        }
+    }
+    fn is_end_stream(&self) -> bool {
+        self.inner.is_end_stream()
+    }
 }
